@@ -400,3 +400,49 @@ func init() {
 		},
 	})
 }
+
+func depRules(c *Ctx) {
+	ruleMapRangeDeterminism(c, "base/dep", "D1-map-range")
+	ruleOrderTaint(c, "base/dep", "D2-order-taint", map[string]bool{"SortByPos": true, "Sort": true, "sort_unique_inplace": true}, map[string]bool{"Map": true, "Print": false})
+	ruleChainStride(c, []string{"base/dep"}, "D3-stride")
+	ruleDepScopes(c)
+	ruleDepGraphStructure(c)
+	ruleAppendAlias(c, "base/dep", "D7-append-alias")
+	ruleCompileSorts(c)
+	c.Floor("D1-map-range", 8)
+	c.Floor("D2-order-taint", 6)
+	c.Floor("D3-stride", 1)
+}
+
+func init() {
+	muts := []Mutant{
+		{Name: "islocal-stride-two", File: "base/dep/scope.go", Old: "for ; s.Outer != nil; s = s.Outer {", New: "for ; s.Outer != nil; s = s.Outer.Outer {", Canary: true},
+		{Name: "visit-ranges-edge-map", File: "base/dep/graph.go", Old: "\tfor _, name := range edges {\n\t\tfor _, node := range g.Nodes[name] {", New: "\tfor name := range g.Edges[name] {\n\t\tfor _, node := range g.Nodes[name] {", Canary: true},
+		{Name: "typefwd-unsorted", File: "base/dep/graph.go", Old: "sorted = append(sorted, buf.SortByPos()...)", New: "sorted = append(sorted, buf...)"},
+		{Name: "typefwd-drops-all-deps", File: "base/dep/graph.go", Old: "g.RemoveDepsFor(Type, list.Map())", New: "g.RemoveDeps(list.Map())"},
+		{Name: "append-without-dup", File: "base/dep/scope.go", Old: "deps = append(dup(typDeps), valueDeps...)", New: "deps = append(typDeps, valueDeps...)"},
+		{Name: "params-in-throwaway-scope", File: "base/dep/scope.go", Old: "deps := inner.funcSignature(node.Type)", New: "deps := inner.Expr(node.Type)"},
+		{Name: "imports-after-decls", File: "base/dep/sorter.go", Old: "\tdecls := s.popPackages()\n\tif len(decls) == 0 {\n\t\tdecls = s.popImports()\n\t}\n\tif len(decls) == 0 {\n\t\tdecls = s.popDecls()\n\t}", New: "\tdecls := s.popPackages()\n\tif len(decls) == 0 {\n\t\tdecls = s.popDecls()\n\t}\n\tif len(decls) == 0 {\n\t\tdecls = s.popImports()\n\t}"},
+		{Name: "min-select-first-found", File: "base/dep/graph.go", Old: "if ret == nil || decl.Pos < pos {", New: "if ret == nil {"},
+	}
+	register(&PropDef{
+		ID:    "C17",
+		Title: "The dependency sorter returns a deterministic, source-stable topological order",
+		Explanation: "Decided: D1 every range over a map in base/dep has order-insensitive effects (keyed stores/deletes, counters, minimum selection under a strict order on positions, appends whose slice is sorted before use; callees are summarised, recursion or calls through function values over shared state are reported); " +
+			"D2 every slice whose element order comes from a map iteration (DeclMap.List, RemoveTypeFwd, ...) reaches only len, Map(), element-wise updates or a sort (SortByPos / graph.Sort) before any order-sensitive use, in every function and through every caller; D3 chain-walk stride: a loop that examines a scope while following .Outer advances exactly one link per iteration; " +
+			"D4 parameters and results are declared in the scope in which the body is scanned; D5 binding constructs of Go have a declaring arm in Scope.AstExpr; D6 a forward type declaration drops dependencies only of Type nodes; D7 no append inside a loop aliases a slice declared outside it; D8 phases packages, imports, declarations, statements in that order, each run ending at the first node of another class; D9 the declaration-loop error is raised iff both removal steps return nothing. " +
+			"Not decided: that the order returned is a topological order of the true dependency relation (run-time graph algorithm).",
+		Assumptions: []string{"sort.Slice / sort.Strings as documented", "token.Pos values of distinct declarations are distinct"},
+		Rules:       []func(*Ctx){depRules},
+		Mutants:     muts,
+	})
+	register(&PropDef{
+		ID:    "C16",
+		Title: "Package-level declarations in one evaluation may be written in any order",
+		Explanation: "Decided (a spurious or missing dependency is how a valid declaration set gets a wrong value or a false 'declaration loop'): the scope-tracking clauses D3 (stride of Scope.isLocal), D4 (parameter/result scope encloses the body), D5 (binding constructs have declaring arms), D7 (dependency lists of one spec do not alias), plus D1/D2 determinism of the sorter and D10: Comp.Compile routes every multi-declaration input through dep.Sorter.All() before the first compileDecl. " +
+			"Not decided: values after evaluation in every permutation.",
+		Assumptions: []string{"see C17"},
+		Rules:       []func(*Ctx){depRules},
+		Mutants:     muts[:2],
+	})
+}
